@@ -54,6 +54,8 @@ MInit(h) ==
     level   |-> 0,                                     \* completed buffer transfers only
     oqc     |-> <<>>,                                  \* object queue content
     pqc     |-> {},                                    \* priority queue content [h, obj, pr]
+    truths  |-> {},                                    \* [p, v]: harness-evaluated predicate truth of the waiters at the current signal
+    sigq    |-> {},                                    \* who was in the condition's list when the current signal began
     preds   |-> {},                                    \* predicate evaluations of the current condition-signal batch [p, v]
     cgrants |-> {},                                    \* processes granted in the current batch
     csub    |-> {},                                    \* guards the condition is subscribed to
@@ -256,7 +258,8 @@ OnDo(m, e) ==
          LET evald == {x.p : x \in m.preds}
              trues == {x.p : x \in {y \in m.preds : y.v}}
              fwdMissing == a[1] \in m.csub /\ \E x \in m.gq[GCOND] : x.p \notin evald
-             fwdLost == a[1] \in m.csub /\ trues \ m.cgrants # {}
+             due == {x.p : x \in {y \in m.truths : y.v}} \cap m.sigq
+             fwdLost == a[1] \in m.csub /\ (trues \ m.cgrants # {} \/ due \ m.cgrants # {})
          IN [m |-> [m EXCEPT !.holder[a[1]] = 0],
              bad |-> (IF m.holder[a[1]] # p THEN Bad("C05", "release-by-process-that-is-not-the-holder-of-record") ELSE {})
                 \cup (IF fwdMissing THEN Bad("C13", "observed-guard-signalled-but-condition-waiter-not-evaluated") ELSE {})
@@ -272,8 +275,12 @@ OnDo(m, e) ==
          LET waiting == {x.p : x \in m.gq[GCOND]} \cup m.cgrants
              trues == {x.p : x \in {y \in m.preds : y.v}}
              evald == {x.p : x \in m.preds}
-         IN [m |-> [m EXCEPT !.preds = {}],
-             bad |-> IF trues \ m.cgrants # {} THEN Bad("C13", "satisfied-waiter-not-resumed-by-signal") ELSE {}]
+             \* what the harness itself saw: waiters (in the list when the signal began) whose predicate was true
+             due == {x.p : x \in {y \in m.truths : y.v}} \cap m.sigq
+             notdue == {x.p : x \in {y \in m.truths : ~y.v}} \cap m.sigq
+         IN [m |-> [m EXCEPT !.preds = {}, !.truths = {}, !.sigq = {}],
+             bad |-> (IF trues \ m.cgrants # {} \/ due \ m.cgrants # {} THEN Bad("C13", "satisfied-waiter-not-resumed-by-signal") ELSE {})
+                \cup (IF \E w \in notdue : w \notin {x.p : x \in m.gq[GCOND]} THEN Bad("C13", "waiter-with-false-predicate-taken-off-the-list") ELSE {})]
     [] e.op \in {"ccancel", "cremove"} ->
          \* m.gone = who left which waiting list during this call (guard hooks)
          LET was == (\E x \in m.gq[GCOND] : x.p = a[1]) \/ <<GCOND, a[1]>> \in m.gone
@@ -453,7 +460,8 @@ Core(m, e) ==
          [m |-> [m EXCEPT !.gq[e.g] = {x \in @ : x.p # e.p}, !.gone = IF e.g = GCOND THEN @ \cup {<<e.g, e.p>>} ELSE @], bad |-> {}]
     [] e.e = "GuardLeave" -> [m |-> [m EXCEPT !.gq[e.g] = {x \in @ : x.p # e.p}], bad |-> {}]
     [] e.e = "Pred" -> [m |-> [m EXCEPT !.preds = @ \cup {[p |-> e.p, v |-> e.v]}], bad |-> {}]
-    [] e.e = "CSigBegin" -> [m |-> [m EXCEPT !.preds = {}], bad |-> {}]
+    [] e.e \in {"CSigBegin", "FwdBegin"} -> [m |-> [m EXCEPT !.preds = {}, !.truths = {}, !.sigq = {x.p : x \in m.gq[GCOND]}], bad |-> {}]
+    [] e.e = "Truth" -> [m |-> [m EXCEPT !.truths = @ \cup {[p |-> e.p, v |-> e.v]}], bad |-> {}]
     [] e.e = "Snap" -> OnSnap(m, e)
     [] e.e = "Hist" -> OnHist(m, e)
     [] e.e = "Quiescent" -> [m |-> m, bad |-> EndOfInstant(m, TRUE, m.now)]
@@ -470,6 +478,7 @@ MStep(m, e) ==
              ELSE IF e.e = "GuardLeave" THEN [p |-> e.p, op |-> adv.m.blk[e.p].op]   \* a blocked call carries on
              ELSE r.m.actor
       boundary == e.e \in {"Call", "Ret", "Do", "Disp"}
-  IN [m |-> [r.m EXCEPT !.actor = act, !.gone = IF boundary THEN {} ELSE @, !.preds = IF boundary THEN {} ELSE @],
+  IN [m |-> [r.m EXCEPT !.actor = act, !.gone = IF boundary THEN {} ELSE @, !.preds = IF boundary THEN {} ELSE @,
+                        !.truths = IF boundary THEN {} ELSE @],
       bad |-> adv.bad \cup r.bad]
 =============================================================================
